@@ -558,6 +558,12 @@ def r_shape_safety(repo, rep, mod, fn, R, typed_params=None):
     return n
 
 
+def _sentinel_get(t, X, tables):
+    """table.get(X.feature, S) with S a plain name (a module-level sentinel object)"""
+    return t[0] == 'call' and t[1][0] == 'attr' and t[1][2] == 'get' and t[1][1] in tables and len(t[2]) == 2 and t[2][0] == A(X, 'feature') \
+        and t[2][1][0] == 'name' and not t[3]
+
+
 def r_instantiation(repo, rep, R):
     """what uni[key] hands back is the matched category with each atom's feature replaced *as a whole* when that very
     feature was bound, and left alone otherwise: an atom keeps its base, a functor is rebuilt from its two instantiated
@@ -571,6 +577,7 @@ def r_instantiation(repo, rep, R):
     w = '%s:%s Unification.__getitem__' % (UNI, gi.lineno)
     SELF = N(gi.args.args[0].arg)
     names = set()
+    handed = set()          # functions handed to the reader as arguments (a structural map applied to `instantiate one atom`)
     for st, out in SymExec(gi, unroll=1, inline=False).run():
         if out == 'return' and st.ret is not None and st.ret[0] == 'call':
             f = st.ret[1]
@@ -580,6 +587,14 @@ def r_instantiation(repo, rep, R):
                 names.add(f[1])
             elif f[0] == 'attr':
                 names.add(f[2])
+            for a_ in st.ret[2]:
+                if a_[0] == 'attr' and a_[1] == SELF:
+                    handed.add(('method', a_[2]))
+                elif a_[0] in ('name', 'func'):
+                    handed.add(('function', a_[1]))
+    # a local of __getitem__ that only abbreviates the table (mapping = self.mapping)
+    table_alias = [n_.targets[0].id for n_ in ast.walk(gi) if isinstance(n_, ast.Assign) and len(n_.targets) == 1 and isinstance(n_.targets[0], ast.Name)
+                   and isinstance(n_.value, ast.Attribute) and isinstance(n_.value.value, ast.Name) and n_.value.value.id == SELF[1] and n_.value.attr == 'mapping']
     names -= {'Atom', 'Functor'}
     if len(names) != 1:
         raise AnalysisError('%s: cannot tell what Unification.__getitem__ returns (%s)' % (UNI, sorted(names)))
@@ -600,6 +615,15 @@ def r_instantiation(repo, rep, R):
         for f_ in (c_.body if c_ is not None else []):
             if isinstance(f_, ast.FunctionDef) and f_.name == nm:
                 defs.append((f_, cat, 'category:' + cname))
+    for kind_, hn in sorted(handed):
+        if kind_ == 'method':
+            for f_ in uni_cls.body:
+                if isinstance(f_, ast.FunctionDef) and f_.name == hn:
+                    defs.append((f_, mod, 'atom-method'))
+        else:
+            for f_ in list(ast.walk(gi)) + list(mod.tree.body):
+                if isinstance(f_, ast.FunctionDef) and f_ is not gi and f_.name == hn and not any(f_ is d_[0] for d_ in defs):
+                    defs.append((f_, mod, 'atom-closure' if f_ not in mod.tree.body else 'atom-function'))
     if not defs:
         raise AnalysisError('%s: the reader `%s` that Unification.__getitem__ returns through was not found' % (UNI, nm))
     seen = {'hit': 0, 'miss': 0, 'fn': 0}
@@ -610,12 +634,12 @@ def r_instantiation(repo, rep, R):
         if kind.startswith('category:'):
             X = N(ps[0])
             tables = [N(p_) for p_ in ps[1:]]
-        elif kind == 'method':
+        elif kind in ('method', 'atom-method'):
             X = N(ps[1]) if len(ps) > 1 else None
             tables = [A(N(ps[0]), 'mapping')] + [N(p_) for p_ in ps[2:]]
-        elif kind == 'closure':
+        elif kind in ('closure', 'atom-closure'):
             X = N(ps[0]) if ps else None
-            tables = [A(SELF, 'mapping')] + [N(p_) for p_ in ps[1:]]
+            tables = [A(SELF, 'mapping')] + [N(p_) for p_ in ps[1:]] + [N(a_) for a_ in table_alias]
         else:
             X = N(ps[0]) if ps else None
             tables = [N(p_) for p_ in ps[1:]]
@@ -641,6 +665,12 @@ def r_instantiation(repo, rep, R):
             is_fn = kind == 'category:Functor' or any(c == A(X, 'is_functor') and pol for c, pol in conds) or any(c == A(X, 'is_atomic') and not pol for c, pol in conds)
             hits = [(c[3], pol) for c, pol in conds if c[0] == 'cmp' and c[1] == 'in' and c[2] == A(X, 'feature') and c[3] in tables]
             hits += [(c[3], not pol) for c, pol in conds if c[0] == 'cmp' and c[1] == 'not in' and c[2] == A(X, 'feature') and c[3] in tables]
+            if kind == 'category:Atom' and r[0] == 'call' and r[1] in tables and r[2] == (X,) and not r[3] and handed:
+                continue        # a structural map: the atom is handed to the function given (judged as that function, below)
+            if r == X and is_fn and any(c[0] == 'cmp' and c[1] == 'is' and pol and is_rec(c[2], A(X, 'left')) and c[3] == A(X, 'left') for c, pol in conds) \
+                    and any(c[0] == 'cmp' and c[1] == 'is' and pol and is_rec(c[2], A(X, 'right')) and c[3] == A(X, 'right') for c, pol in conds):
+                seen['fn'] += 0     # both sides came back as the very objects they were: the functor itself stands for the rebuilt one
+                continue
             if r[0] == 'call' and is_fn:
                 args = list(r[2])
                 kw = dict(r[3])
@@ -667,7 +697,14 @@ def r_instantiation(repo, rep, R):
                         seen['hit'] += 1
                         seen['miss'] += 1
                         continue
+                    # looked up once with a sentinel: v = table.get(x.feature, SENTINEL); v is SENTINEL -> x, else Atom(x.base, v)
+                    if _sentinel_get(f_, X, tables) and any(c == ('cmp', 'is', f_, f_[2][1]) and not pol or c == ('cmp', 'is not', f_, f_[2][1]) and pol for c, pol in conds):
+                        seen['hit'] += 1
+                        continue
             if r == X and not is_fn and hits and not hits[-1][1]:
+                seen['miss'] += 1
+                continue
+            if r == X and not is_fn and any(c[0] == 'cmp' and c[1] in ('is', 'is not') and _sentinel_get(c[2], X, tables) and c[3] == c[2][2][1] and pol == (c[1] == 'is') for c, pol in conds):
                 seen['miss'] += 1
                 continue
             bad.append('%s under %s' % (show(r)[:70], [('' if pol else 'not ') + show(c)[:40] for c, pol in conds][-2:]))
